@@ -121,18 +121,20 @@ def build_reference():
     want = hashlib.sha1(tar.read_bytes()).hexdigest()
     with open(TARGET / ".build.lock", "w") as lk:
         fcntl.flock(lk, fcntl.LOCK_EX)
-        if not (stamp.exists() and stamp.read_text() == want and binp.exists()):
+        if not (stamp.exists() and stamp.read_text() == want):
             shutil.rmtree(TARGET / "reference", ignore_errors=True)
             ref_src.mkdir(parents=True)
             subprocess.run(["tar", "-xf", str(tar), "-C", str(ref_src)], check=True)
-            env = dict(os.environ)
-            env["CARGO_NET_OFFLINE"] = "true"
-            env.pop("RUSTFLAGS", None)
-            r = subprocess.run(["cargo", "build", "--offline", "--bins"], cwd=VERIF / "harness-ref",
-                               env=env, capture_output=True, text=True)
-            if r.returncode != 0:
-                raise ToolError("reference build failed:\n" + r.stderr[-4000:])
             stamp.write_text(want)
+        # always ask cargo: the driver source (harness/src/bin/rfv-run.rs) is shared with the
+        # working-tree build and may have changed; an up-to-date build costs a fraction of a second
+        env = dict(os.environ)
+        env["CARGO_NET_OFFLINE"] = "true"
+        env.pop("RUSTFLAGS", None)
+        r = subprocess.run(["cargo", "build", "--offline", "--bins"], cwd=VERIF / "harness-ref",
+                           env=env, capture_output=True, text=True)
+        if r.returncode != 0 or not binp.exists():
+            raise ToolError("reference build failed:\n" + r.stderr[-4000:])
     return str(binp)
 
 
